@@ -154,6 +154,10 @@ def handle (op : String) (args : List Sexp) : R Sexp := do
         Spec.c05CertClauses inp tbs ++ Spec.c09CertClauses inp tbs ++
         Spec.c01Clauses i.key.alg der (fun t => (Spec.decodeTbsCert t).map (·.sigAlg)) ++
         Spec.clause "C04:canonical-der" (Spec.certCanonical der) ++
+        Spec.clause "C02:custom-extensions-present" (p.customExts.all (fun e =>
+          match Spec.rawCertExts tbs with
+          | some xs => xs.contains (e.oid, e.critical, e.content)
+          | none => false)) ++
         -- read at the level of the Extension itself (identifier, criticality, extnValue octets),
         -- so that it also speaks about caller extensions under an identifier the reader interprets
         Spec.clause "C04:custom-content-verbatim" (p.customExts.all (fun e =>
@@ -201,6 +205,17 @@ def handle (op : String) (args : List Sexp) : R Sexp := do
                (c.attrs.filter (fun d => d.oid == a.oid && d.values == a.values)).length ≥
                (attrs.filter (fun b => b.oid == a.oid && b.values == a.values)).length)
            | none => false) ++
+        -- every caller extension is in an extension request, under its identifier, with its
+        -- criticality and content (read at the level of the Extension, so that identifiers the
+        -- reader interprets are covered as well)
+        Spec.clause "C07:custom-extensions-requested" (p.customExts.all (fun e =>
+          match Spec.decodeCsrInfo info with
+          | some c => c.attrs.any (fun d =>
+              d.oid == Spec.oidExtensionRequest &&
+              match Spec.rawRequestExts d.values with
+              | some xs => xs.contains (e.oid, e.critical, e.content)
+              | none => false)
+          | none => false)) ++
         Spec.clause "C04:custom-content-verbatim" (p.customExts.all (fun e =>
           match Spec.decodeCsrInfo info with
           | some c => c.attrs.any (fun d =>
